@@ -29,6 +29,11 @@ def run(chk):
             expect(chk, "R-QUAD", c + ".velocity", v, tags_has=[quad], tags_not=[other], loc=r.fi.loc())
             expect(chk, "R-QUAD", c + ".displacement", d, tags_has=[quad], tags_not=[other], loc=r.fi.loc())
     check_forwarder(chk, "R-INT-TYPE", FWD, ARR)
+    from ..tyob import no_truncation
+    for trap in (True, False):
+        no_truncation(chk, "R-INT-TYPE", ARR, lambda I, st, fi, trap=trap: dict(acceleration=rec_array("acceleration", dtype="int"),
+                                                                              dt=pos_scalar("dt", DT), trap=const_av(trap)),
+                      "eqsig/displacements.py:calc_velo_and_disp_from_accel_arr(trap=%s, integer record)" % trap, what="an integer-typed record")
     # default of trap is trapezoid
     r = analyse(chk, ARR, lambda I, st, fi: dict(acceleration=rec_array("acceleration"), dt=pos_scalar("dt", DT)))
     expect(chk, "R-QUAD", "eqsig/displacements.py:calc_velo_and_disp_from_accel_arr(default)", item(r.ret, 1),
